@@ -93,7 +93,7 @@ func runSelftest(id string) *selftestResult {
 			defer os.RemoveAll(evd)
 			self, _ := os.Executable()
 			c := exec.Command(self, "check", "--tier", "quick", id)
-			c.Env = append(os.Environ(), "GOVC_REPO="+scratch, "GOVC_EVIDENCE="+evd, "VERIF_TIER=quick")
+			c.Env = append(os.Environ(), "GOVC_REPO="+scratch, "GOVC_EVIDENCE="+evd, "VERIF_TIER=quick", "GOVC_CHILD=1")
 			out, err := c.CombinedOutput()
 			res.Ran++
 			if err != nil && strings.Contains(string(out), "VIOLATION property="+id) {
@@ -171,7 +171,7 @@ func runMustPass(id string) *mustPassResult {
 			evd, _ := os.MkdirTemp("", "govc-scratch-ev-")
 			defer os.RemoveAll(evd)
 			c := exec.Command(self, "check", "--tier", "quick", id)
-			c.Env = append(os.Environ(), "GOVC_REPO="+scratch, "GOVC_EVIDENCE="+evd, "VERIF_TIER=quick")
+			c.Env = append(os.Environ(), "GOVC_REPO="+scratch, "GOVC_EVIDENCE="+evd, "VERIF_TIER=quick", "GOVC_CHILD=1")
 			o, err := c.CombinedOutput()
 			if err == nil {
 				results[i] = out{name, "quiet", ""}
